@@ -149,6 +149,7 @@ def run_history(ctx, label, expr, history, schedule, index):
             nonce = f'{kind[0]}{index}x{step}'
             job = {'registry': registry, 'project': 'p', 'release': '1', 'generation': generation, 'action': kind,
                    'nonce': nonce, 'out': os.path.join(workdir, f'{step}.json'), 'gc': schedule,
+                   'scheduler': scheduler_for(ctx, index, step),
                    'hashseed': core.subseed(ctx.seed, index, step) % 1000, 'entries': [[1000 * index + step]]}
             racer = None
             if race and model:
@@ -161,7 +162,8 @@ def run_history(ctx, label, expr, history, schedule, index):
                 ctx.count('raced_actions')
             ctx.count('evaluations')
             ctx.count(f'actions_{kind}')
-            ctx.shape((sig, kind, 'explicit' if explicit else 'latest', len(model), schedule, bool(racer)))
+            ctx.shape((sig, kind, 'explicit' if explicit else 'latest', len(model), schedule, bool(racer), job['scheduler']))
+            ctx.note_set('schedulers', job['scheduler'])
             result = spawn(job, workdir, core.REPO)
             if result.get('timeout'):
                 ctx.inconclusive(f'{kind} timed out after {ACTION_TIMEOUT}s ({label})')
@@ -255,6 +257,14 @@ def run_history(ctx, label, expr, history, schedule, index):
                 ctx.sample({'pipeline': sig, 'action': action, 'generation': target, 'gc': schedule, 'sink': expected.show(4)})
     finally:
         shutil.rmtree(workdir, ignore_errors=True)
+
+
+def scheduler_for(ctx, index, step):
+    """dask scheduler of one batch action: mostly synchronous (fast); threads / processes are mixed in so that the
+    lifecycle drivers are also exercised on the other local schedulers (backends are compared as such by C02)."""
+    if ctx.quick:
+        return 'threads' if (index + step) % 5 == 0 else 'synchronous'
+    return ['synchronous', 'threads', 'synchronous', 'processes'][(index + step) % 4]
 
 
 def _strip_states(term):
